@@ -80,7 +80,8 @@ def cases(seed, tier):
         d["unused"] = rng.choice(UNUSED)
         d["shared"] = rng.random() < 0.15
         d["derived"] = rng.random() < 0.3
-        d["nontensor"] = rng.random() < 0.3
+        d["nontensor"] = rng.random() < 0.4
+        d["ntpos"] = rng.choice(["first", "first", "after_first", "last"])     # where the python float sits among the explicit parameters
         d["order"] = 2 if rng.random() < 0.6 else 1
         return d
 
@@ -230,7 +231,7 @@ def make_step(d, xshape, phase_shift):
     return raw
 
 
-def place(body, names, tensors, placement, rec, which, k, unused_tensor, nontensor):
+def place(body, names, tensors, placement, rec, which, k, unused_tensor, nontensor, ntpos="after_first"):
     """returns (callable for xitorch, explicit parameter list).  `tensors`: name -> tensor handed to xitorch."""
     import xitorch
     if placement == "explicit":
@@ -244,7 +245,8 @@ def place(body, names, tensors, placement, rec, which, k, unused_tensor, nontens
     expl_params = [tensors[n] for n in expl]
     k_const = k
     if nontensor:
-        expl_params.insert(min(1, len(expl_params)), k)
+        pos = {"first": 0, "after_first": min(1, len(expl_params)), "last": len(expl_params)}[ntpos]
+        expl_params.insert(pos, k)
     if unused_tensor is not None and not use_obj:
         expl_params.append(unused_tensor)
 
@@ -446,8 +448,9 @@ def build_problem(desc, rng, tgen, rec):
         return out
     kf = 0.8 if nontensor else 1.0
     kp = 1.25 if nontensor else 1.0
-    fnontensor = nontensor and fplace in ("explicit", "mixed") and len(fnames) > 0
-    pnontensor = nontensor and pplace in ("explicit", "mixed")
+    # the float may also be the only explicit parameter of a function whose tensors are all held by its object
+    fnontensor = nontensor and len(fnames) > 0
+    pnontensor = nontensor
     if not fnontensor:
         kf = 1.0
     if not pnontensor:
@@ -455,9 +458,11 @@ def build_problem(desc, rng, tgen, rec):
     ften = tensors_for("f.", fnames, f_nn)
     pten = tensors_for("p.", pnames, p_nn)
     fcall, fparams, fobj = place(fbody, fnames, ften, fplace, rec, "f", kf,
-                                 hand("f.unused", isinstance(uf, torch.nn.Parameter)) if uf is not None else None, fnontensor)
+                                 hand("f.unused", isinstance(uf, torch.nn.Parameter)) if uf is not None else None, fnontensor,
+                                 desc.get("ntpos", "after_first"))
     pcall, pparams, pobj = place(pbody, pnames, pten, pplace, rec, "p", kp,
-                                 hand("p.unused", isinstance(up, torch.nn.Parameter)) if up is not None else None, pnontensor)
+                                 hand("p.unused", isinstance(up, torch.nn.Parameter)) if up is not None else None, pnontensor,
+                                 desc.get("ntpos", "after_first"))
     if tau is not None:
         pparams = list(pparams) + [hand("p.steponly", False)]
     # ---- x0 and the sampler options
